@@ -88,6 +88,10 @@ type Pipe struct {
 	Delivered int // bytes handed to the reader side
 	// WMarks / DMarks: (cumulative byte count, simulated time) after each accepted write / delivery.
 	WMarks []Mark
+	// CMarks: (stream offset at which a Write CALL of the library began, simulated time of the call).
+	// A write into a closed window is accepted later than it is issued; CalledAt tells when the
+	// library decided to write the byte at an offset.
+	CMarks []Mark
 	DMarks []Mark
 	readerGone bool
 	// CutAt (>= 0) makes the pipe deliver exactly CutAt bytes and no more: the byte that would cross
@@ -168,6 +172,21 @@ type Mark struct {
 // WrittenAt returns the time at which cumulative byte off (1-based count) had been accepted from
 // the writer, or -1.
 func (p *Pipe) WrittenAt(off int) time.Duration { return markAt(p.WMarks, off) }
+
+// CalledAt returns when the Write call that carried the byte at stream offset off (1-based count, as
+// for WrittenAt) was issued, -1 if unknown.
+func (p *Pipe) CalledAt(off int) time.Duration {
+	at := time.Duration(-1)
+	for _, m := range p.CMarks {
+		if m.Off < off {
+			at = m.At
+		} else {
+			break
+		}
+	}
+
+	return at
+}
 
 // DeliveredAt returns the time at which cumulative byte off had been delivered to the reader side, or -1.
 func (p *Pipe) DeliveredAt(off int) time.Duration { return markAt(p.DMarks, off) }
@@ -588,6 +607,7 @@ func (c *Conn) write(b []byte) (int, error) {
 		if first {
 			first = false
 			c.Writes++
+			p.CMarks = append(p.CMarks, Mark{p.Written, c.n.W.Now()})
 			if c.n.WriteFault != nil {
 				if k, err := c.n.WriteFault(c, len(b)); err != nil {
 					if k > len(b) {
